@@ -179,7 +179,12 @@ def check(case) -> core.Out:
         out.viol.append((key + f"extra|{S.PNAME[S.proto_of(got[n][0])]}",
                          f"unexpected item {got[n][0][:30].hex()} ({S.opts_label(opts)})"))
         return out
-    rest = stream.read()
+    try:
+        rest = stream.read()
+    except ValueError as err:
+        # the caller's stream object was closed behind the caller's back
+        out.viol.append((key + "stream-closed", f"the stream handed to the reader is unusable afterwards: {err}"))
+        return out
     if rest:
         out.viol.append((key + "not-consumed", f"{len(rest)} bytes left unread after iteration ended"))
     return out
